@@ -318,10 +318,16 @@ def run_case(case):
         bio, sio = io.BytesIO(), io.StringIO()
         fb = open(os.path.join(tmp, "b.log"), "ab")
         ft = open(os.path.join(tmp, "t.log"), "a", encoding="utf-8")
+        import codecs
+
+        fc1 = codecs.open(os.path.join(tmp, "c1.log"), "w", "utf-8")
+        fc2 = codecs.getwriter("utf-8")(open(os.path.join(tmp, "c2.log"), "wb"))
         eliot.to_file(bio)
         eliot.to_file(sio)
         eliot.to_file(fb)
         eliot.to_file(ft)
+        eliot.to_file(fc1)
+        eliot.to_file(fc2)
         sizes = []
         for m in msgs:
             eliot.Logger().write(m)
@@ -334,7 +340,11 @@ def run_case(case):
                 break
         fb.close()
         ft.close()
+        fc1.close()
+        fc2.close()
         contents = {
+            "codecs.open": open(os.path.join(tmp, "c1.log"), "rb").read().decode("utf-8"),
+            "codecs.getwriter": open(os.path.join(tmp, "c2.log"), "rb").read().decode("utf-8"),
             "BytesIO": bio.getvalue().decode("utf-8"),
             "StringIO": sio.getvalue(),
             "disk-binary": open(os.path.join(tmp, "b.log"), "rb").read().decode("utf-8"),
